@@ -193,6 +193,10 @@ Definition untag_fold (k : gkey) (snapshot t : list (ref * desc)) : list (ref * 
 Definition spec_untag_equal (k : gkey) (t : list (ref * desc)) : list (ref * desc) :=
   filter (fun e => negb (eq_target (snd e) k)) t.
 
+(* Store.Tag: a reference in digest form addresses content, it can only name desc itself *)
+Definition foreign_digest_ref (d : desc) (r : ref) : bool :=
+  match r with RDig g => negb (g =? d_dig d) | _ => false end.
+
 Definition ospec_step (U : N -> gkey) (s : ospec) (o : op) : ospec * out :=
   match o with
   | Push d c =>
@@ -214,7 +218,8 @@ Definition ospec_step (U : N -> gkey) (s : ospec) (o : op) : ospec * out :=
   | Tag d r =>
       match r with
       | REmpty => (s, OErr EMissingRef)
-      | _ => if is_some (get N.eqb (d_dig d) (sp_content s))
+      | _ => if foreign_digest_ref d r then (s, OErr EInvalidRef)
+             else if is_some (get N.eqb (d_dig d) (sp_content s))
              then (mkSpec (sp_content s) (spec_oci_tag d r (sp_tags s)), OOk)
              else (s, OErr ENotFound)
       end
@@ -366,6 +371,16 @@ Definition oci_tag (d : desc) (r : ref) (s : resolver) : resolver :=
 Definition oci_untag_equal (k : gkey) (snapshot : list (ref * desc)) (s : resolver) : resolver :=
   fold_left (fun acc e => if eq_target (snd e) k then res_untag (fst e) acc else acc) snapshot s.
 
+(* Store.Tag indexes a manifest descriptor before tagging it (index.json must only name
+   manifests that can be loaded again): graph.Index re-reads the blob *)
+Definition oci_tag_graph (d : desc) (blobs : list (N * blob)) (g : graph) : graph :=
+  if is_manifest (d_mt d)
+  then match get N.eqb (d_dig d) blobs with
+       | Some c => g_index d (succ_of (gk d) c) g
+       | None => g
+       end
+  else g.
+
 Definition oci_step (s : oci_store) (o : op) : oci_store * out :=
   match o with
   | Push d c =>
@@ -387,8 +402,9 @@ Definition oci_step (s : oci_store) (o : op) : oci_store * out :=
   | Tag d r =>
       match r with
       | REmpty => (s, OErr EMissingRef)
-      | _ => if is_some (get N.eqb (d_dig d) (o_blobs s))
-             then (mkOci (o_blobs s) (oci_tag d r (o_res s)) (o_graph s), OOk)
+      | _ => if foreign_digest_ref d r then (s, OErr EInvalidRef)
+             else if is_some (get N.eqb (d_dig d) (o_blobs s))
+             then (mkOci (o_blobs s) (oci_tag d r (o_res s)) (oci_tag_graph d (o_blobs s) (o_graph s)), OOk)
              else (s, OErr ENotFound)
       end
   | Resolve r =>
